@@ -7,6 +7,9 @@ HERE = os.path.dirname(os.path.dirname(os.path.abspath(__file__)))
 sys.path.insert(0, HERE)
 from vlib.main import MODULES  # noqa
 
+# properties whose check has passed the integration gate (quiet at 3 seeds, mutants caught)
+READY = ['C01', 'C02']
+
 CHECKS = {
     'C01': dict(cat='fault_enumeration', ref='3 C01',
                 text='Every single fault (step x position x kind) for all phase shapes up to the bound, every fault '
@@ -138,7 +141,7 @@ def main():
     for pid in sorted(MODULES):
         modfile = os.path.join(HERE, MODULES[pid].replace('.', '/') + '.py')
         c = CHECKS[pid]
-        if os.path.exists(modfile):
+        if os.path.exists(modfile) and pid in READY:
             checks.append({
                 'property_id': pid,
                 'quick_cmd': './check %s --tier quick' % pid,
